@@ -532,6 +532,36 @@ def _split_top(x):
     return out
 
 
+def _option_map_or(e):
+    """`o.map(|p| B).unwrap_or(D)`, `.unwrap_or_else(|| D)` / `(path)`, `o.map_or(D, |p| B)`,
+    `o.map_or_else(|| D, |p| B)` -> (o, closure, default expression node or ('call', path node))"""
+    if e.get('k') != 'MethodCall':
+        return None
+    me = e.get('method')
+    ch = e['ch']
+
+    def thunk(x):
+        x = peel(x)
+        if x.get('k') == 'Closure' and not x.get('params'):
+            return x['ch'][0]
+        if x.get('k') == 'Path':
+            return ('call', x)
+        return None
+    if me in ('unwrap_or', 'unwrap_or_else') and len(ch) == 2 and callee_is(e, 'Option::unwrap_or', 'Option::unwrap_or_else'):
+        r = peel(ch[0])
+        if r.get('k') == 'MethodCall' and r.get('method') == 'map' and callee_is(r, 'Option::map') and \
+                peel(r['ch'][1]).get('k') == 'Closure' and len(peel(r['ch'][1]).get('params', [])) == 1:
+            d = ch[1] if me == 'unwrap_or' else thunk(ch[1])
+            if d is not None:
+                return r['ch'][0], peel(r['ch'][1]), d
+    if me in ('map_or', 'map_or_else') and len(ch) == 3 and callee_is(e, 'Option::map_or', 'Option::map_or_else') and \
+            peel(ch[2]).get('k') == 'Closure' and len(peel(ch[2]).get('params', [])) == 1:
+        d = ch[1] if me == 'map_or' else thunk(ch[1])
+        if d is not None:
+            return ch[0], peel(ch[2]), d
+    return None
+
+
 def _prime(en, locals_names):
     """new env in which every (local id, source name) of locals_names reads as the next version
     (name') of its current canonical name: what is read after an assignment is a new value"""
@@ -809,6 +839,20 @@ def _paths(e, env=None, conds=frozenset(), effects=()):
         return
     if e.get('ty') == '!':
         yield conds, 'PANIC', effects, env
+        return
+    om = _option_map_or(e)
+    if om is not None:
+        # an Option combinator chain is control flow: Some -> closure body, None -> default
+        recv, cl, dflt = om
+        r_ = canon(recv, env)
+        en_s = dict(env)
+        for b_ in _pat_binds(cl['params'][0]):
+            en_s[b_['local']] = r_
+        yield from _paths(cl['ch'][0], en_s, conds | frozenset({'VALID(%s)' % r_}), effects)
+        if isinstance(dflt, tuple):
+            yield conds | frozenset({'!VALID(%s)' % r_}), canon({'k': 'Call', 'ch': [dflt[1]], 'callee': dflt[1].get('def', '')}, env), effects, env
+        else:
+            yield from _paths(dflt, env, conds | frozenset({'!VALID(%s)' % r_}), effects)
         return
     yield conds, canon(e, env), effects, env
 
